@@ -379,7 +379,7 @@ fn c04_sparse(rng: &mut Rng, thorough: bool, out: &mut Sink, slot: &mut usize) {
             }
         }
         let vocab: Vocab = toks.iter().enumerate().map(|(i, t)| Token { id: 20 + i as u32 * 2, bytes: t.as_bytes().to_vec() }).collect();
-        let scores: Scores = toks.iter().map(|_| if v % 2 == 0 { -(rng.range(0, 3) as f32) } else { -(rng.range(1, 4000) as f32) / 256.0 }).collect();
+        let scores: Scores = toks.iter().map(|_| if v % 4 == 2 { -(rng.range(0, 3) as f32) - (rng.range(0, 4) as f32) / 1024.0 } else if v % 2 == 0 { -(rng.range(0, 3) as f32) } else { -(rng.range(1, 4000) as f32) / 256.0 }).collect();
         let mut config = Configuration::default();
         config.fallback = if v % 5 == 4 { vec![] } else { vec![Fallback::Unknown] };
         let specials = vec![SpecialToken { id: 5_000_000, bytes: b"\x01<unk>\x01".to_vec(), kind: SpecialTokenKind::Unknown, ident: None, score: 0.0, extract: false }];
